@@ -37,6 +37,12 @@ CHECKS = {
             "attribute valuation; C18_signature_shapes is the premise on the code (re-proved by computation each run).  The tie: repr shapes of random DSL trees "
             "computed by Repr.repr_shape in Coq vs the text repr() prints, and eval(repr(x)) == x on every element/property object.",
             "full on the model of the mechanism; literal printing is Python's own repr (trusted)"),
+    "C17": ("Coq theorems by induction on element trees (reflexivity, symmetry of Element.__eq__ incl. dict-valued keywords and literal equality) + refuted interchangeability witness + vm_compute correspondence of == on mutated pairs + verdict/serialization oracle",
+            "C17_reflexive/C17_symmetric hold for all well-formed element trees (27 keyword fields, properties, compositions, classes) and C17_literals_* for all "
+            "JSON literals; the interchangeability half is FALSE on the faithful model (C17_interchangeable_refuted: multipleOf 2 vs 2.0) and recorded as finding C17-K17; "
+            "outside that finding it is checked by the oracle (equal pairs: same verdicts, same serialization) on single-site mutations.  Equality.v is tied to the "
+            "code by evaluating elem_eq in Coq on every generated pair.",
+            "reflexive/symmetric full; interchangeable: refuted in general (finding), otherwise oracle + correspondence (no congruence theorem yet)"),
 }
 
 REASONS_PENDING = "check under construction in this session: not yet claimed"
